@@ -1175,6 +1175,11 @@ SEQUENCE_decode_uper(const asn_codec_ctx_t *opt_codec_ctx,
 
 		if(elm->flags & ATF_OPEN_TYPE) {
 			rv = OPEN_TYPE_uper_get(opt_codec_ctx, td, st, elm, pd);
+		} else if(!elm->type->op->uper_decoder) {
+			ASN_DEBUG("PER decoder is not defined for type %s",
+				elm->type->name);
+			FREEMEM(opres);
+			ASN__DECODE_FAILED;
 		} else {
 			rv = elm->type->op->uper_decoder(opt_codec_ctx, elm->type,
 					elm->encoding_constraints.per_constraints, memb_ptr2, pd);
